@@ -59,7 +59,7 @@ func TestSweep(t *testing.T) {
 	}
 	// zeros of both signs appended over each other (float types): the window overruns into a parent that holds the other zero
 	for _, tn := range []string{"float32", "float64", "int16"} {
-		for _, vals := range [][]int64{{128}, {128, 0}, {0, 128}, {128, 128, 0, 0}} {
+		for _, vals := range [][]int64{{128}, {128, 0}, {0, 128}, {128, 128, 0, 0}, {129, 130, 131, 132, 133}} {
 			for fix := 0; fix <= 2; fix++ {
 				Oracle.One(t, env, rec, "sweep", &Case{T: tn, C: 2, Kr: 4, A: 1, B: 2, N: 5, Fix: fix, Vals: vals})
 			}
